@@ -55,6 +55,7 @@ BEGIN {
 	if (act == "divbegin") x = 1 / zero
 	if (act == "exitbegin") exit 4
 	if (act == "srandonly") srand(5)
+	if (act == "splitargv") { split("zz yy", ARGV); split("k v", ENVIRON) }
 	if (usegetline) {
 		if ((getline line < "in1") > 0) obs("getline.in1", line)
 		# two more streams read alternately (each scanner has its own buffer)
@@ -113,7 +114,7 @@ END {
 }
 `
 
-var c14Acts = []string{"", "", "", "srandonly", "setmodes", "divbegin", "exitbegin", "closecmd", "srand", "forin", "getlinebegin",
+var c14Acts = []string{"", "", "", "srandonly", "splitargv", "setmodes", "divbegin", "exitbegin", "closecmd", "srand", "forin", "getlinebegin",
 	"failfn", "divfn", "exitfn", "cancelfn", "nextfn", "exitrule", "divrule", "cancelrule", "failrule", "deeprule", "getlinerule", "matchrule", "divend", "exitend"}
 
 type c14Run struct {
